@@ -96,7 +96,20 @@ PairsEv ==
      ELSE Flag("C10 RESYNC: chunking of the common data differs after a common boundary") /\ UNCHANGED nok
   /\ UNCHANGED <<alg, w, hT, hF>>
 
-TNext == Scenario \/ RunEv \/ BigEv \/ PairEv \/ PairsEv
+\* C10 on streams of more than 2^32 bytes: the boundaries of the common data arrive as head (below 1 MiB, absolute), a digest of the ones
+\* between, and tail (around and beyond 2^32, relative to a base) - positions beyond 2^31 do not fit TLC's integers
+HugePairEv ==
+  /\ l <= Len(Rec) /\ Ev.ev = "hugepair" /\ l' = l + 1
+  /\ LET sa == {Ev.head_a[i] : i \in 1..Len(Ev.head_a)} sb == {Ev.head_b[i] : i \in 1..Len(Ev.head_b)}
+         common == {x \in sa \cap sb : x >= Ev.w} IN
+     IF common = {} THEN nok' = nok + 1 /\ UNCHANGED <<verdicts, nverdicts>>
+     ELSE LET m == CHOOSE x \in common : \A y \in common : x <= y IN
+          IF {x \in sa : x >= m} = {x \in sb : x >= m} /\ Ev.mid_a = Ev.mid_b /\ Ev.tail_a = Ev.tail_b
+          THEN nok' = nok + 1 /\ UNCHANGED <<verdicts, nverdicts>>
+          ELSE Flag("C10 RESYNC: chunking of the common data differs after a common boundary (stream beyond 2^32 bytes)") /\ UNCHANGED nok
+  /\ UNCHANGED <<alg, w, hT, hF>>
+
+TNext == Scenario \/ RunEv \/ BigEv \/ PairEv \/ PairsEv \/ HugePairEv
 TSpec == TInit /\ [][TNext]_vars
 
 Accepted == IF TLCGet("stats").diameter - 1 = Len(Rec) THEN TRUE
